@@ -205,6 +205,12 @@ def constructed_mutations(depth):
         MU.AddField('Item', 'n1', local, initial='t', max_length=12),
         MU.AddField('Item', 'n2', vendor, initial='t', max_length=12),
         MU.AddField('Item', 'n3', models.IntegerField, null=True)]))
+    # an initial value next to null=True (existing rows are back-filled)
+    out.append(('AddField.null+initial', [MU.AddField(
+        'Item', 'n1', models.IntegerField, initial=5, null=True)]))
+    out.append(('AddField.null+initial-str', [MU.AddField(
+        'Item', 'n1', models.CharField, initial='x', null=True,
+        max_length=10)]))
     # an attribute going back to None
     out.append(('ChangeField.attr-to-None', [MU.ChangeField(
         'Item', 't', initial=None, max_length=None)]))
